@@ -23,11 +23,6 @@ WritesOK(stream, log) ==
      /\ \A i \in ws : i > 1 /\ log[i - 1] = "ev:Finished"
      \* ... and it is the FIRST run-Finished it follows
      /\ \A i \in ws : \A j \in 1..(i - 2) : log[j] # "ev:Finished"
-ForwardedOK(stream, log) ==
-  LET evs == SelectSeq(log, LAMBDA x : x # "write") IN
-  /\ Len(evs) = Len(stream)
-  /\ \A i \in DOMAIN evs : evs[i] = <<"ev:", stream[i].t>> \/ TRUE
-
 Verdict(r) ==
   LET d == DeclRun(DeclInit, r.stream)
       a == r.actual
